@@ -417,6 +417,41 @@ func vsrvC15Script(s *vsrvSession, rng *rand.Rand, d *vsrvC15Desc) {
 		id := x.newID()
 		s.setPlan(id, []vsrvOp{{Kind: 'w', N: 10}})
 		s.cliHeaders(id, true, vsrvGetFields("/te", vsrvField{"te", "trailers"}))
+	case "graceful-rst":
+		// Graceful shutdown (the client's GOAWAY(NO_ERROR), answered by the server's) with requests
+		// still running: the client then resets streams, the newest one included, while their
+		// handlers are parked; once the resets have been processed the released handlers must not
+		// get a single frame onto those streams.
+		var ids []uint32
+		for i, n := 0, 1+rng.IntN(3); i < n; i++ {
+			id := x.newID()
+			ids = append(ids, id)
+			s.setPlan(id, []vsrvOp{{Kind: 'p'}, {Kind: 'w', N: 10 + rng.IntN(5000)}})
+			s.cliHeaders(id, true, vsrvGetFields("/held"))
+		}
+		s.settle()
+		s.cliWrite(h2ref.AppendGoAway(nil, 0, h2ref.ErrNo, nil))
+		x.note("GOAWAY(NO_ERROR) from the client")
+		s.settle()
+		var reset []uint32
+		for i := len(ids) - 1; i >= 0; i-- { // the newest first
+			if i == len(ids)-1 || rng.IntN(2) == 0 {
+				s.cliRST(ids[i], h2ref.ErrCancel)
+				reset = append(reset, ids[i])
+				x.note("RST s=%d during the graceful shutdown", ids[i])
+			}
+		}
+		s.settle()
+		s.mu.Lock()
+		s.ev["streams_reset_during_graceful_shutdown"] += int64(len(reset))
+		s.mu.Unlock()
+		for _, id := range ids {
+			s.release(id)
+			if rng.IntN(2) == 0 {
+				s.settle()
+			}
+		}
+		s.settle()
 	case "server-ping":
 		// The server's own keep-alive PING (Server.ReadIdleTimeout) is outstanding while client
 		// PINGs arrive, one of them carrying the very same opaque data: it is a PING like any
@@ -677,7 +712,7 @@ func TestVerif_C15(t *testing.T) {
 	vsrvGoroutineTracking(false)
 	n := r.N(500, 15000)
 	r.Cases("directed-settings-ack-min", 1, func(c *verifrt.Case) { vsrvC15Session(r, c, "settings-ack-min") })
-	for _, m := range []string{"over-limit", "early-reset", "malformed", "settings-during-write", "server-ping"} {
+	for _, m := range []string{"over-limit", "early-reset", "malformed", "settings-during-write", "server-ping", "graceful-rst"} {
 		m := m
 		r.CasesParallel("directed-"+m, n/10, 0, func(c *verifrt.Case) { vsrvC15Session(r, c, m) })
 	}
@@ -695,6 +730,7 @@ func TestVerif_C15(t *testing.T) {
 	r.Require("malformed_rejected_by_4xx", 50)
 	r.Require("server_ping_acks", 300)
 	r.Require("client_pings_with_data_of_outstanding_server_ping", 20)
+	r.Require("streams_reset_during_graceful_shutdown", 30)
 	r.Require("server_settings_acks", 500)
 	r.Require("quiescent_points_evaluated", 2000)
 }
